@@ -26,14 +26,13 @@ class LocalDeme(AbstractDeme):
 
     def run_metaepoch(self, _) -> None:
         x0 = self._sprout_seed.genome
+        bounds = np.asarray(self._bounds, dtype=float)
+
         # scipy minimizes, so a maximization problem is handed to it with the sign flipped.
-        if self._problem.maximize:
-
-            def fun(x):
-                return -self._problem.evaluate(x)
-
-        else:
-            fun = self._problem.evaluate
+        # Its finite-difference steps can leave the box by an ulp: the objective is evaluated inside the box only.
+        def fun(x):
+            value = self._problem.evaluate(np.clip(x, bounds[:, 0], bounds[:, 1]))
+            return -value if self._problem.maximize else value
 
         result = sopt.minimize(
             fun,
